@@ -96,17 +96,13 @@ def timestamp_millis (dt : NaiveDT) : Res Int :=
 def timestamp_micros (dt : NaiveDT) : Res Int :=
   (timestamp dt).bind fun t => (ckI64 (t * 1000000)).bind fun us => ckI64 (us + timestamp_subsec_micros dt)
 
-/-- `timestamp_nanos_opt`, with the negative-timestamp workaround -/
+/-- `timestamp_nanos_opt`: the count is formed in 128 bits (`i128`), then range-checked against `i64`
+(fix 32de816; the former negative-timestamp workaround overflowed for a leap representation on the
+second -9223372038) -/
 def timestamp_nanos_opt (dt : NaiveDT) : Res (Option Int) :=
   (timestamp dt).bind fun ts =>
   let sub := timestamp_subsec_nanos dt
-  let fin (ts sub : Int) : Res (Option Int) :=
-    match optI64 (ts * 1000000000) with
-    | some p => .ok (optI64 (p + sub))
-    | none => .ok none
-  if ts < 0 then
-    (ckI64 (sub - 1000000000)).bind fun sub => (ckI64 (ts + 1)).bind fun ts => fin ts sub
-  else fin ts sub
+  .ok (optI64 (ts * 1000000000 + sub))
 
 /-- `DateTime::<Utc>::from_timestamp(secs: i64, nsecs: u32)` -/
 def from_timestamp (secs nsecs : Int) : Res (Option NaiveDT) :=
